@@ -253,14 +253,26 @@ func c16RunHistory(log *c16Log, f *os.File, sc c16Scenario) {
 	start := func(st c16Step) *c16Running {
 		r := &c16Running{n: st.Call, shape: st.Shape, done: make(chan c16CallEnd, 1)}
 		running[st.Call] = r
-		line("Call", c16Line{"call": st.Call, "shape": st.Shape})
+		var emu sync.Mutex
+		ended := false
 		cctx := context.WithValue(ctx, c16EmitKey{}, func(ev c16Line) {
+			emu.Lock()
+			defer emu.Unlock()
+			if ended { // the call has come back: a goroutine it left behind may still ask a fake
+				return
+			}
 			ev["sc"], ev["ep"], ev["call"] = sc.Sc, sc.Ep, st.Call
 			log.write(ev)
 		})
+		over := func() {
+			emu.Lock()
+			ended = true
+			emu.Unlock()
+		}
 		go func() {
 			defer func() {
 				if p := recover(); p != nil {
+					over()
 					stack := string(debug.Stack())
 					text, frame, decoder := c16Short(fmt.Sprint(p), 200), c16TopFrame(stack), c16DecoderFrame(stack)
 					switch {
@@ -276,6 +288,7 @@ func c16RunHistory(log *c16Log, f *os.File, sc c16Scenario) {
 				}
 			}()
 			res := in.Invoke(cctx, st.Call, st.Shape)
+			over()
 			if res.Outcome == "undeliverable" {
 				line("Undeliverable", c16Line{"call": st.Call, "detail": c16Short(res.Detail, 160)})
 			} else {
@@ -296,6 +309,9 @@ func c16RunHistory(log *c16Log, f *os.File, sc c16Scenario) {
 		switch st.Op {
 		case "Call":
 			overlap := i+1 < len(sc.Steps) && sc.Steps[i+1].Op == "Call" && gate != nil
+			// from here on the surroundings present the input of this call (a call that is still in flight shares them:
+			// its remaining requests may be answered by this call's script)
+			line("Call", c16Line{"call": st.Call, "shape": st.Shape})
 			in.Prepare(st.Call, st.Shape)
 			if overlap {
 				gate.Arm()
